@@ -252,19 +252,27 @@ fn join_loop_job_inv(n: usize, m: usize, kt: KeyTy, pl: Payload, mut dom: Vec<Va
                 assign("out", vec![Acc::Index(var("cnt"))], tup(vec![tupf(var("x"), 0), xa1, tupf(var("y"), 1)])),
                 assign("cnt", vec![], bin(BinOp::Add, var("cnt"), lit_usize(1))),
                 assign("acc", vec![], bin(BinOp::BitXor, var("acc"), bin(BinOp::Div, lit(100, pb_int), if invariant { var("d") } else { tupf(var("y"), 1) }))),
-            ],
+            ]
+            .into_iter()
+            // (invariant variant) the body also assigns to a `mut` PARAMETER of main: applied for matching pairs only
+            .chain(if invariant { vec![assign("e", vec![], bin(BinOp::BitXor, var("e"), tupf(var("y"), 1)))] } else { vec![] })
+            .collect(),
         )),
-        expr_stmt(tup(vec![var("out"), var("cnt"), var("acc")])),
+        expr_stmt(if invariant { tup(vec![var("out"), var("cnt"), var("acc"), var("e")]) } else { tup(vec![var("out"), var("cnt"), var("acc")]) }),
     ];
     let mut params = vec![("a", Ty::arr(ea, n)), ("b", Ty::arr(eb, m))];
     if invariant {
         params.push(("d", pb.clone()));
+        params.push(("e", pb.clone()));
     }
-    let prog = Program::simple_main(
+    let mut prog = Program::simple_main(
         params,
-        Ty::Tup(vec![Ty::arr(out_elem, c), Ty::usize(), pb.clone()]),
+        if invariant { Ty::Tup(vec![Ty::arr(out_elem, c), Ty::usize(), pb.clone(), pb.clone()]) } else { Ty::Tup(vec![Ty::arr(out_elem, c), Ty::usize(), pb.clone()]) },
         body,
     );
+    if invariant {
+        prog.fns[0].params[3].mutable = true;
+    }
     // inputs: all pairs of strictly ascending key arrays; payloads distinct markers; plus one zero divisor per position of b
     let mut inputs = vec![];
     for sa in subsets(dom.len(), n) {
@@ -293,7 +301,7 @@ fn join_loop_job_inv(n: usize, m: usize, kt: KeyTy, pl: Payload, mut dom: Vec<Va
                         .collect(),
                 );
                 if invariant {
-                    inputs.push(vec![a, b, Val::Int(if zero_at.is_some() { 0 } else { 3 }, pb_int)]);
+                    inputs.push(vec![a, b, Val::Int(if zero_at.is_some() { 0 } else { 3 }, pb_int), Val::Int(64, pb_int)]);
                 } else {
                     inputs.push(vec![a, b]);
                 }
